@@ -381,7 +381,13 @@ func main() {
 		bind := map[string]string{"ptrToVal": "unknown", "valToPtr": "unknown", "same": "unknown", "call": "unknown", "lateCall": "slot"}
 		atCreation, lateNilNode := false, false
 		recvHash := "unrecognised: receiver binding not found"
-		if fd := common.FindFunc(fr, "", "genFunctionWrapper"); fd == nil {
+		fdGW := common.FindFunc(fr, "", "genFunctionWrapperFor") // since dc95f3e genFunctionWrapper and genHostFunctionWrapper delegate to it
+		if fdGW == nil {
+			fdGW = common.FindFunc(fr, "", "genFunctionWrapper")
+		} else if g := common.FindFunc(fr, "", "genFunctionWrapper"); g == nil || !contains(g.Body, "return genFunctionWrapperFor(n, false)") {
+			unrec = append(unrec, "run.go: genFunctionWrapper does not delegate to genFunctionWrapperFor(n, false)")
+		}
+		if fd := fdGW; fd == nil {
 			unrec = append(unrec, "run.go: genFunctionWrapper not found")
 		} else {
 			// the callback: the function literal passed to reflect.MakeFunc; the closure bindRecv
@@ -687,7 +693,7 @@ func main() {
 			{"itype", "getMethod"}, {"itype", "methodDepth"}, {"itype", "methodCount"}, {"itype", "fieldCount"}, {"itype", "needsPtrFor"}, {"itype", "methods"}, {"methodSet", "contains"}, {"itype", "implements"}, {"", "lookupFieldOrMethod"}})
 		hC := common.HashTable(fsC, fc, [][2]string{{"", "matchSelectorMethod"}, {"", "getDefault"}})
 		hR := common.HashTable(fsR, fr, [][2]string{{"", "typeAssert"}, {"", "_case"}, {"", "implementsInterface"}, {"", "canAssertTypes"},
-			{"", "getMethod"}, {"", "getMethodByName"}, {"", "lookupMethodValue"}, {"", "stripReceiverFromArgs"}, {"", "genFunctionWrapper"}, {"", "genInterfaceWrapper"}, {"", "genInterfaceWrapperValue"}, {"", "copyDeferArg"}})
+			{"", "getMethod"}, {"", "getMethodByName"}, {"", "lookupMethodValue"}, {"", "stripReceiverFromArgs"}, {"", "genFunctionWrapper"}, {"", "genFunctionWrapperFor"}, {"", "genHostFunctionWrapper"}, {"", "genInterfaceWrapper"}, {"", "genInterfaceWrapperValue"}, {"", "copyDeferArg"}})
 		hK := common.HashTable(fsK, fk, [][2]string{{"typecheck", "typeAssertionExpr"}})
 		hV := common.HashTable(fsV, fv, [][2]string{{"", "genDestValue"}, {"", "genValueInterface"}, {"", "genValueRecv"}})
 		return fmt.Sprintf(`import YaegiVerif.Model.Method
